@@ -209,8 +209,23 @@ func (Engine) Run(t *tape.Tape, o eng.Opts) *eng.Result {
 		res.Probes["long_runs"]++
 	}
 
+	// Open workload: requests arrive on the virtual clock (arrival offsets, think times) instead
+	// of back to back, so the number of requests in flight rises and falls during the run.
+	openOdds := 3
+	if world.AutoMode {
+		openOdds = 2
+	}
+	openWl := !taskStorm && sw.Intn(openOdds) == 1
+	if openWl && !cfgLong && sw.Intn(2) == 1 {
+		// more requests per task, so that the population in flight goes up and down several times
+		p.MinTasks, p.MaxTasks, p.MinReqs, p.MaxReqs = 3, 6, 4, 10
+	}
+
 	setup := world.GenSetup(gen, p)
 	reqs := world.GenRequests(gen, fg, setup, p)
+	if openWl {
+		world.GenArrivals(t.Stream("arrival"), reqs)
+	}
 	var all []*world.Req
 	for _, l := range reqs {
 		all = append(all, l...)
@@ -226,7 +241,16 @@ func (Engine) Run(t *tape.Tape, o eng.Opts) *eng.Result {
 	for i := range cur {
 		cur[i] = -1
 	}
+	// Reach probe: how the population of requests in flight moves (a request is in flight from
+	// the moment its task is released at the request boundary until the task parks there again).
+	inflight := make([]bool, n)
+	nIn, peak, fell, rises := 0, 0, false, 0
 	cfg.OnYield = func(task, site int, now int64) {
+		if (site == world.SiteReq || site == -1) && inflight[task] {
+			inflight[task] = false
+			nIn--
+			fell = true
+		}
 		if site == world.SiteReq {
 			cur[task]++
 			started[task] = now
@@ -234,6 +258,17 @@ func (Engine) Run(t *tape.Tape, o eng.Opts) *eng.Result {
 		}
 	}
 	cfg.WakeCmd = func(task int, now int64) int {
+		if !inflight[task] && cur[task] >= 0 && cur[task] < len(reqs[task]) {
+			inflight[task] = true
+			nIn++
+			if nIn > peak {
+				peak = nIn
+			}
+			if fell && nIn >= 2 {
+				rises++ // the population grows again after it had shrunk
+				fell = false
+			}
+		}
 		k := cur[task]
 		if k < 0 || k >= len(reqs[task]) || fired[task] {
 			return 0
@@ -245,6 +280,7 @@ func (Engine) Run(t *tape.Tape, o eng.Opts) *eng.Result {
 		}
 		return 0
 	}
+	cfg.Sleep = world.SleepFn(reqs, cur, started, res)
 	cfg.KeepLog = o.Trace
 	bodies := make([]func(*sched.Task), n)
 	for i := range bodies {
@@ -262,6 +298,13 @@ func (Engine) Run(t *tape.Tape, o eng.Opts) *eng.Result {
 	res.Steps, res.Ticks, res.Switches = sr.Steps, sr.Ticks, sr.Switches
 	res.SchedHash, res.SwitchHash, res.SwitchPairs, res.Sites = sr.SchedHash, sr.SwitchHash, sr.SwitchPairs, sr.SiteHits
 	res.Blocked = sr.BlockedHandovers
+	world.NoteClock(sr, res)
+	if openWl {
+		res.Probes["open_workload:in_flight_rose_again_after_falling"] += rises
+		if peak >= 3 {
+			res.Probes["open_workload:peak_in_flight>=3"]++
+		}
+	}
 	res.Faults["stalled-task"] += sr.Stalls
 	res.Probes["stall_ended_by_progress_of_others"] += sr.StallThaws
 	res.Requests = len(all)
